@@ -19,6 +19,15 @@ state is CPython, so this harness carries the weight:
   (show_picklable), evaluate/keys/validate (observe) and post-registration behaviour
   (observe_registered) are computed by vm_compute and compared with the implementation.
 
+Every generated body appends its own call to the module's LOG (next to the effects), so the log of an
+observation says which user code ran: a memoized result that is silently recomputed after the round trip
+shows there.  Bodies of kind "stamp" are IMPURE: their value embeds (os.getpid(), a per-process call
+counter).  The comparison of values masks the stamp; a separate clause of the oracle demands that every
+stamp the ORIGINAL served from its cache (computed before the snapshot that was pickled) comes back
+unchanged from the copy -- in-process and in a fresh interpreter with another hash seed -- i.e. the
+memoized entries travel AND are still found.  Graphs reaching a stamp body are outside Model/Pickle.v
+(user functions are pure there): oracle only.
+
 Known finding D18: decorator-form graphs cannot be pickled (PicklingError).  Those failures are
 tagged D18; the same graphs are additionally round-tripped with a pickler that stores the shadowed
 function by a persistent id, so that everything ELSE about them is still checked.
@@ -52,8 +61,15 @@ D18_WHAT = ("pickle.dumps of a decorator-form dataset (@dataset def ds(...)), or
 HEADER = '''\
 from labrea import Option, dataset, abstractdataset, Value
 from labrea.pipeline import Pipeline
+import os
 
 LOG = []
+STAMPS = [0]
+
+
+def _stamp():
+    STAMPS[0] += 1
+    return ('@', os.getpid(), STAMPS[0])
 
 
 def cb1(x):
@@ -131,10 +147,12 @@ def _body(fname, ds):
     ps = ds.get("params", [])
     sig = ", ".join(f"{p}={_src(s)}" for p, s in ps)
     names = [p for p, _ in ps]
-    lines = [f"def {fname}({sig}):"]
+    lines = [f"def {fname}({sig}):", f"    LOG.append(['call', {fname!r}])"]
     kind = ds.get("kind", "tag")
     if kind == "first":
         lines.append(f"    return {names[0]}")
+    elif kind == "stamp":
+        lines.append("    return (" + ", ".join([repr(fname), "_stamp()"] + names) + ")")
     else:
         if kind == "raise_if":
             lines.append("    if any(isinstance(v, str) and v == 'bad' for v in (" + "".join(n + ", " for n in names) + ")):")
@@ -198,6 +216,16 @@ def gen_source(spec):
     for dv in spec.get("derived", []):
         out.append(f"{dv['name']} = {dv['base']}.{dv['how']}({dv['options']!r})")
         out.append("")
+    for cy in spec.get("cycles", []):
+        # a CYCLIC graph: an overload of `owner` that is itself computed from `owner` (through a with_options copy that
+        # pins the dispatch key to another value, so evaluation terminates)
+        fname = cy["name"] + "_impl"
+        out.append(f"def {fname}(b={cy['owner']}.with_options({_nest({cy['dk']: cy['pin']})!r}), a=Option('A', 0)):")
+        out.append(f"    LOG.append(['call', {fname!r}])")
+        out.append(f"    return ({fname!r}, b, a)")
+        out.append(f"{cy['name']} = dataset({fname})")
+        out.append(f"{cy['owner']}.register({cy['alias']!r}, {cy['name']})")
+        out.append("")
     return "\n".join(out) + "\n"
 
 
@@ -209,6 +237,7 @@ def graph_names(spec):
             if ov["target"][0] == "new":
                 names.append(ov["target"][1]["name"])
     names += [dv["name"] for dv in spec.get("derived", [])]
+    names += [cy["name"] for cy in spec.get("cycles", [])]
     return names
 
 
@@ -220,6 +249,8 @@ def fn_kinds(spec):
         for ov in ds.get("overloads", []):
             if ov["target"][0] == "new":
                 kinds[fn_name(ov["target"][1])] = ov["target"][1].get("kind", "tag")
+    for cy in spec.get("cycles", []):
+        kinds[cy["name"] + "_impl"] = "tag"
     return kinds
 
 
@@ -270,13 +301,16 @@ def _params(rng, names, kind):
     return ps
 
 
-def gen_world(rng, modname, mixed, max_ds=6):
+def gen_world(rng, modname, mixed, max_ds=6, impure=0.0):
+    """impure: share of the bodies whose value embeds (os.getpid(), call counter) -- such graphs are outside the model"""
     names, firsts, dss = [], [], []
     n = rng.randint(3, max_ds)
     for i in range(n):
         name = f"g{i}"
         form = "decorator" if mixed and rng.random() < 0.4 else "explicit"
         kind = rng.choices(["tag", "raise_if", "first"], [0.68, 0.20, 0.12])[0]
+        if impure and kind == "tag" and rng.random() < impure:
+            kind = "stamp"
         ds = {"name": name, "form": form, "kind": kind, "params": _params(rng, names, kind)}
         r = rng.random()
         if r < 0.30:
@@ -320,6 +354,8 @@ def gen_world(rng, modname, mixed, max_ds=6):
                 else:
                     sub = {"name": f"{name}_o{k}", "kind": rng.choice(["tag", "tag", "raise_if"]),
                            "form": "decorator" if mixed and rng.random() < 0.4 else "explicit"}
+                    if impure and sub["kind"] == "tag" and rng.random() < impure:
+                        sub["kind"] = "stamp"
                     sub["params"] = _params(rng, names, sub["kind"])
                     tgt = ["new", sub]
                 ovs.append({"how": how, "aliases": aliases, "target": tgt})
@@ -334,7 +370,34 @@ def gen_world(rng, modname, mixed, max_ds=6):
             how = rng.choice(["with_options", "with_default_options"])
             derived.append({"name": ds["name"] + ("_w" if how == "with_options" else "_d"), "base": ds["name"],
                             "how": how, "options": _rand_opts(rng, KEYS + DKEYS)})
-    return {"module": modname, "datasets": dss, "derived": derived}
+    cycles = []
+    if impure:
+        for ds in dss:
+            d = ds.get("dispatch")
+            if d and d[0] in ("key", "optd") and ds["form"] == "explicit" and rng.random() < 0.6 and len(cycles) < 2:
+                own = [a for ov in ds["overloads"] for a in ov["aliases"]]
+                cycles.append({"owner": ds["name"], "name": ds["name"] + "_c", "alias": "cyc_" + ds["name"], "dk": d[1],
+                               "pin": rng.choice(own + ["nope"])})
+    return {"module": modname, "datasets": dss, "derived": derived, "cycles": cycles}
+
+
+def cyclic_spec(modname):
+    """A hand-written module (explicit form) whose graphs are CYCLIC: a dataset has an overload that is computed from a
+    with_options copy of that very dataset (the copy shares the overload table).  Outside Model/Pickle.v (trees): oracle only."""
+    def sub(name, params, kind="tag"):
+        return {"name": name, "form": "explicit", "kind": kind, "params": params}
+    dss = [
+        {"name": "b0", "form": "explicit", "kind": "tag", "params": [["x", ["opt", "A"]]], "dispatch": ["key", "D1"],
+         "overloads": [{"how": "register", "aliases": ["x"], "target": ["opt", "C"]},
+                       {"how": "overload", "aliases": ["y"], "target": ["new", sub("b0_y", [["b", ["opt", "B"]]])]}]},
+        {"name": "b1", "form": "explicit", "kind": "stamp", "params": [["a", ["optd", "A", 1]], ["n", ["ds", "b0"]]],
+         "dispatch": ["optd", "D2", "x"], "callback": ["cb1"], "effects": ["eff1"], "default_options": {"B": 4},
+         "overloads": [{"how": "list", "aliases": [1, 2], "target": ["new", sub("b1_l", [["c", ["opt", "C"]]], "raise_if")]}]},
+    ]
+    derived = [{"name": "b0_w", "base": "b0", "how": "with_options", "options": {"D1": "y"}}]
+    cycles = [{"owner": "b0", "name": "b0_c", "alias": "zz", "dk": "D1", "pin": "x"},
+              {"owner": "b1", "name": "b1_c", "alias": "y", "dk": "D2", "pin": "nope"}]
+    return {"module": modname, "datasets": dss, "derived": derived, "cycles": cycles}
 
 
 def fixed_spec(modname, form):
@@ -362,8 +425,14 @@ def fixed_spec(modname, form):
          "dispatch": ["optd", "D2", "x"], "effects": ["eff2", "eff_raise"], "options": {"D2": "x"},
          "overloads": [{"how": "register", "aliases": ["x"], "target": ["const", 42]},
                        {"how": "register", "aliases": ["y"], "target": ["ds", "g2"]}]},
+        {"name": "g4", "form": form, "kind": "stamp", "params": [["a", ["opt", "A"]], ["x", ["optd", "S.X", 7]]],
+         "effects": ["eff1"], "overloads": []},
+        {"name": "g5", "form": form, "kind": "tag", "params": [["s", ["ds", "g4"]], ["b", ["opt", "B"]]],
+         "dispatch": ["key", "D2"], "callback": ["cb1"],
+         "overloads": [{"how": "overload", "aliases": ["y"], "target": ["new", sub("g5_y", [["c", ["opt", "C"]]], "stamp")]}]},
     ]
     derived = [{"name": "g0_w", "base": "g0", "how": "with_options", "options": {"D1": "y", "C": "pre"}},
+               {"name": "g4_d", "base": "g4", "how": "with_default_options", "options": {"A": 3}},
                {"name": "g0_d", "base": "g0", "how": "with_default_options", "options": {"C": 9, "S": {"X": 1}}},
                {"name": "g1_w", "base": "g1", "how": "with_options", "options": {"M": {"SRC": "y"}}}]
     return {"module": modname, "datasets": dss, "derived": derived}
@@ -377,6 +446,7 @@ def used_aliases(spec):
             out.append(d[2])
         for ov in ds.get("overloads", []):
             out.extend(ov["aliases"])
+    out.extend(cy["alias"] for cy in spec.get("cycles", []))
     seen, res = set(), []
     for a in out:
         if repr(a) not in seen:
@@ -461,12 +531,32 @@ def enc(v):
     if isinstance(v, str):
         return {"S": v}
     if isinstance(v, tuple):
+        if is_stamp(v):
+            return {"S": "@"}          # impure part of a value: masked here, judged by check_stamps
         return {"T": [enc(x) for x in v]}
     if isinstance(v, list):
         return {"L": [enc(x) for x in v]}
     if isinstance(v, dict):
         return {"O": [[k, enc(x)] for k, x in v.items()]}
     return {"?": type(v).__name__}
+
+
+def is_stamp(v):
+    return isinstance(v, tuple) and len(v) == 3 and v[0] == "@" and isinstance(v[1], int) and isinstance(v[2], int)
+
+
+def stamps_of(v, out=None):
+    """the stamps (os.getpid(), call counter) of impure bodies inside a value, in order"""
+    out = [] if out is None else out
+    if is_stamp(v):
+        out.append(list(v))
+    elif isinstance(v, (tuple, list)):
+        for x in v:
+            stamps_of(x, out)
+    elif isinstance(v, dict):
+        for x in v.values():
+            stamps_of(x, out)
+    return out
 
 
 def classify(e):
@@ -496,11 +586,18 @@ def attempt(f):
         return ["fail", classify(e)]
 
 
-def observe(obj, dicts, log):
+def observe(obj, dicts, log, stamps=None):
     out = []
     for o in dicts:
         n0 = len(log)
-        v = attempt(lambda: enc(obj.evaluate(copy.deepcopy(o))))
+        raw = []
+
+        def ev():
+            raw.append(obj.evaluate(copy.deepcopy(o)))
+            return enc(raw[0])
+        v = attempt(ev)
+        if stamps is not None:
+            stamps.append(stamps_of(raw[0]) if raw else [])
         k = attempt(lambda: sorted(obj.keys(copy.deepcopy(o))))
         va = attempt(lambda: obj.validate(copy.deepcopy(o)) and None)
         x = attempt(lambda: sorted(obj.explain(copy.deepcopy(o))))
@@ -570,8 +667,34 @@ def generic_state(root):
     return go(root)
 
 
+def reach_funcs(root):
+    """qualified name -> importable, for every plain function reachable from a graph (through __dict__ / containers)"""
+    out, seen, stack = {}, set(), [root]
+    while stack:
+        o = stack.pop()
+        if id(o) in seen or o is None or isinstance(o, (bool, int, float, str, bytes, type) + LOCK_TYPES):
+            continue
+        seen.add(id(o))
+        if isinstance(o, types.FunctionType):
+            if o.__module__ == getattr(root, "__module__", o.__module__) or not o.__module__.startswith("labrea"):
+                out[o.__qualname__] = importable(o)
+            continue
+        if isinstance(o, (list, tuple, set, frozenset)):
+            stack.extend(o)
+        elif isinstance(o, dict):
+            stack.extend(o.keys())
+            stack.extend(o.values())
+        elif hasattr(o, "__dict__") and type(o).__module__.startswith("labrea"):
+            stack.extend(vars(o).values())
+    return out
+
+
 class Unmodelled(Exception):
     pass
+
+
+IMPURE = "impure body (its value embeds the process id and a call counter)"
+CYCLIC = "cyclic graph (the model's states are trees)"
 
 
 def _jsonable(v):
@@ -600,6 +723,7 @@ def model_state(root):
     from labrea.types import Value
 
     info = {"funcs": {}, "ovs": [], "locks": []}
+    visiting = set()
 
     def need(o, *attrs):
         d = getattr(o, "__dict__", {})
@@ -611,6 +735,8 @@ def model_state(root):
     def fname(f):
         if not isinstance(f, types.FunctionType):
             raise Unmodelled(f"not a plain function: {type(f).__name__}")
+        if "_stamp" in f.__code__.co_names:
+            raise Unmodelled(IMPURE)
         info["funcs"][f.__qualname__] = importable(f)
         return f.__qualname__
 
@@ -638,6 +764,15 @@ def model_state(root):
         raise Unmodelled(f"alias {k!r}")
 
     def go(o):
+        if id(o) in visiting:
+            raise Unmodelled(CYCLIC)
+        visiting.add(id(o))
+        try:
+            return go1(o)
+        finally:
+            visiting.discard(id(o))
+
+    def go1(o):
         t = type(o)
         if t is Value:
             (v,) = need(o, "value")
@@ -684,7 +819,10 @@ def model_state(root):
             elif type(cache) is MemoryCache:
                 ents = []
                 for fp, val in need(cache, "_cache")[0].items():
-                    pairs = [[k, v] for item in json.loads(fp.decode()) for k, v in item.items()]
+                    try:
+                        pairs = [[k, v] for item in json.loads(fp.decode()) for k, v in item.items()]
+                    except Exception:  # noqa: BLE001  the model's cache is keyed by the fingerprint (JSON bytes)
+                        raise Unmodelled(f"MemoryCache key of type {type(fp).__name__} is not the JSON fingerprint bytes")
                     ents.append([pairs, enc(val)])
                 c = ["mem", ents]
             else:
@@ -1004,7 +1142,8 @@ def child_main(jobfile):
                     r["ms"] = model_state(h)[0]
                 except Unmodelled as e:
                     r["ms"] = ["unmodelled", str(e)]
-                r["obs"] = observe(h, it["dicts"], mod.LOG)
+                r["st"] = []
+                r["obs"] = observe(h, it["dicts"], mod.LOG, r["st"])
                 target = obj = h
             r["pre"] = strip_log(observe(obj, it["reg_dicts"], mod.LOG))
             out = reg(lambda: target.register(it["new_alias"], mod.extra))
@@ -1068,12 +1207,19 @@ class ModuleRun:
 
     def snapshot(self, g, name, tag, rec):
         rec["gs" + tag] = generic_state(g)
+        rec["mark" + tag] = self.mod.STAMPS[0]      # stamps up to here were computed before this snapshot
         try:
             ms, info = model_state(g)
             rec["ms" + tag], rec["info" + tag] = ms, info
         except Unmodelled as e:
             rec["ms" + tag], rec["info" + tag] = None, None
             rec["unmodelled"] = str(e)
+            if str(e) in (IMPURE, CYCLIC):
+                k = "impure_graph_states" if str(e) == IMPURE else "cyclic_graph_states"
+                self.stats[k] = self.stats.get(k, 0) + 1
+            else:      # the generator stays inside the model's universe: the CODE left it
+                self.mism.append(dict(where="state_of(original) is outside Model/Pickle.v", graph=name, state=tag,
+                                      error=str(e)[:200], module_spec=self.spec))
         by, byb = {}, {}
         for p in PROTOCOLS:
             try:
@@ -1100,9 +1246,10 @@ class ModuleRun:
             rec = {"name": name}
             self.graphs[name] = rec
             self.snapshot(g, name, "A", rec)
-            rec["obsA"] = observe(g, self.dicts, log)
+            rec["stA"], rec["stB"] = [], []
+            rec["obsA"] = observe(g, self.dicts, log, rec["stA"])
             self.snapshot(g, name, "B", rec)
-            rec["obsB"] = observe(g, self.dicts, log)
+            rec["obsB"] = observe(g, self.dicts, log, rec["stB"])
             self.count_obs(rec["obsA"])
             self.count_obs(rec["obsB"])
             if rec["msA"] is None:
@@ -1113,6 +1260,8 @@ class ModuleRun:
                 self.stats["top_level_cache_entries_pickled"] = (self.stats.get("top_level_cache_entries_pickled", 0)
                                                                  + len(rec["msB"][3][1]))
             info = rec["infoA"]
+            if info is None and rec.get("unmodelled") in (IMPURE, CYCLIC):
+                info = {"funcs": reach_funcs(g)}      # the D18 zone is decided without the model's image
             d18_zone = info is not None and not all(info["funcs"].values())
             rec["d18_zone"] = d18_zone
             fails = {f"{p} (cold)": b for p, b in rec["bytesA"].items() if isinstance(b, Exception)}
@@ -1194,7 +1343,10 @@ class ModuleRun:
             self.v("structural state differs after the round trip", name, protocol=p, mode=mode, state=tag,
                    diff=first_diff(want_gs, gs))
         if obs is None:
-            obs = observe(h, self.dicts, log)
+            st = []
+            obs = observe(h, self.dicts, log, st)
+            if want_gs is None:
+                self.check_stamps(rec, tag, st, p, mode)
         self.count_obs(obs)
         want = rec["obs" + tag]
         for o, a, b in zip(self.dicts, want, obs):
@@ -1205,6 +1357,26 @@ class ModuleRun:
                        unpickled={k: b.get(k) for k in fields})
                 break
         return gs, obs
+
+    def check_stamps(self, rec, tag, got, p, mode):
+        """Oracle (impure bodies): what the original, in the state that was pickled, served from its cache -- stamps
+        computed before that snapshot -- the copy serves unchanged: the memoized entries travel and are still found.
+        (Stamps the original computed afresh are unconstrained: the copy computes its own.)"""
+        me = os.getpid()
+        mark = rec["mark" + tag]
+        for o, a, b in zip(self.dicts, rec["st" + tag], got):
+            if len(a) != len(b):
+                continue                      # the values differ in shape: reported by the comparison of values
+            for x, y in zip(a, b):
+                if x[1] == me and x[2] <= mark:
+                    self.stats["memoized_stamps_checked"] = self.stats.get("memoized_stamps_checked", 0) + 1
+                    if list(y) != list(x):
+                        self.v("a result memoized before pickling is not served by the unpickled dataset: for the same options the "
+                               "original returns the stored value, the copy computes a new one (the impure body shows it)",
+                               rec["name"], protocol=p, mode=mode, state=tag, options=o,
+                               original={"stamp (pid, call)": x[1:], "this process": me},
+                               unpickled={"stamp (pid, call)": list(y)[1:]}, fields=["v"])
+                        return
 
     def phase_copies(self, protos_warm):
         log = self.mod.LOG
@@ -1365,7 +1537,12 @@ class ModuleRun:
                 if rec["msA"] is not None and p == 5:
                     term = R.g_node(rec["msA"])
                     P = "{| locks := []; next_lock := 5000; next_id := 9000 |}"
-                    extra_ms = model_state(self.mod.extra)[0]
+                    try:
+                        extra_ms = model_state(self.mod.extra)[0]
+                    except Unmodelled as e:      # the registered dataset left the model's universe: say so, go on
+                        self.mism.append(dict(where="state_of(registered dataset) is outside Model/Pickle.v", graph=name,
+                                              error=str(e)[:200], module_spec=self.spec))
+                        continue
                     for o, ob in zip(rec["rdicts"], post):
                         self.model_case(
                             f"observe_registered {self.ftable} {P} {term} {R.g_hkey(rec['alias'])} {R.g_node(extra_ms)} {R.g_dict(o)}",
@@ -1540,6 +1717,7 @@ class ModuleRun:
                    diff=first_diff(want_gs, r["gs"]))
         if tag != "bundle":
             self.count_obs(r["obs"])
+            self.check_stamps(rec, tag, r.get("st", []), p, mode)
             for o, a, b in zip(self.dicts, norm(rec["obs" + tag]), r["obs"]):
                 if a != b:
                     fields = [k for k in a if a[k] != b.get(k)]
@@ -1746,9 +1924,14 @@ def run(ctx):
     for form in ("explicit", "decorator"):
         spec = fixed_spec(f"c20f_{tagid}_{form}", form)
         specs.append((spec, gen_dicts(rng, spec, quick)))
+    spec = cyclic_spec(f"c20c_{tagid}")
+    specs.append((spec, gen_dicts(rng, spec, quick)))
     for k in range(n_mod):
         mixed = (k % 2 == 1)
         spec = gen_world(rng, f"c20m_{tagid}_{k}", mixed, max_ds=5 if quick else 6)
+        specs.append((spec, gen_dicts(rng, spec, quick)))
+    for k in range(1 if quick else 10):      # modules with impure bodies (oracle only: outside Model/Pickle.v)
+        spec = gen_world(rng, f"c20i_{tagid}_{k}", k % 2 == 1, max_ds=5 if quick else 6, impure=0.45)
         specs.append((spec, gen_dicts(rng, spec, quick)))
     hashseeds = [0, rng.randint(1, 4_000_000)] if quick else [0] + [rng.randint(1, 4_000_000) for _ in range(3)]
     runs, child_stats = run_specs(ctx, specs, hashseeds, quick=quick)
@@ -1789,13 +1972,16 @@ def run(ctx):
                 elif f != "derived" and ds.get(f):
                     feats[f] += 1
         feats["derived"] += len(spec["derived"])
+        feats["cycles"] = feats.get("cycles", 0) + len(spec.get("cycles", []))
     # keep the replay payloads small: the spec of the module, the graph, protocol, dictionary
     return {
         "evaluations": stats.get("observations", 0) + stats.get("state_compares", 0),
         "distinct_nontrivial": len(nontrivial),
         "rule": "generated importable modules (3-6 datasets each, explicit and decorator form, nested datasets, dispatch by key / "
                 "Option with default / another dataset, overloads via register/overload/stacked/list aliases, pre-set and default "
-                "options, callbacks, effects, nocache, with_options derivatives) x ~35 option dictionaries (sufficient, each key "
+                "options, callbacks, effects, nocache, with_options derivatives; every body logs its own call; the hand-written modules and one "
+                "more generated module per four contain IMPURE bodies whose value embeds (os.getpid(), call counter); that module and a "
+                "hand-written one contain CYCLIC graphs: an overload computed from a with_options copy of its own dataset) x ~35 option dictionaries (sufficient, each key "
                 "missing, every registered/unregistered dispatch value, extra keys, raising values, LABREA switches) x protocols 0-5 "
                 "x {in-process, fresh interpreter with fixed and varied hash seed} x {cold, warm cache}; an evaluation = one "
                 "(object, dictionary) observation (evaluate+keys+validate+explain+effect log) or one structural-state comparison; "
@@ -1811,7 +1997,9 @@ def run(ctx):
                              violations_tagged_D18=sum(1 for v in viol if v.get("finding") == "D18")),
         "exhaustive": False,
         "assumptions": [
-            "user functions are importable module-level functions, deterministic in their arguments (bodies return tagged tuples)",
+            "user functions are importable module-level functions; deterministic in their arguments (bodies return tagged tuples) except the "
+            "bodies of kind 'stamp' (process id + call counter inside the value): their graphs are outside the model, judged by the oracle only "
+            "(values compared with the stamp masked; stamps the original served from its cache must come back unchanged from the copy)",
             "option values are JSON without template braces, no scalar parents (D6 zone), aliases are str/int/None",
             "pickle.dumps/loads faithfully reconstruct attribute state: CPython, not a theorem; checked here for protocols 0-5",
             "MemoryCache contents are pickled with the dataset: cached values travel (checked: warm-state pickles)",
@@ -1835,7 +2023,10 @@ def replay(ctx, payload):
     only = payload.get("graph") if payload.get("graph") not in (None, "(all)") else None
     if only and only not in graph_names(spec):
         only = None
-    runs, _ = run_specs(ctx, [(spec, dicts)], [0], only=only, quick=False)
+    import re
+    m = re.search(r"PYTHONHASHSEED=(\d+)", str(payload.get("mode", "")))
+    other = int(m.group(1)) if m and int(m.group(1)) != 0 else 2718281       # always also a hash seed unlike the pickling process's
+    runs, _ = run_specs(ctx, [(spec, dicts)], [0, other], only=only, quick=False)
     n, mism = model_compare(ctx, runs, name="Replay_C20")
     viol = [v for mr in runs for v in mr.viol]
     want = payload.get("finding")
